@@ -500,6 +500,58 @@ def run(repo, outdir):
     out.append("/-- exec.c `iter_*_next`: `if (stack->sp + guardK <guardCmp> stack->capacity) return ERROR_EXEC_STACK_OVERFLOW;` then at most `maxPushes` writes `stack->items[stack->sp++]` on any path -/")
     out.append("def iterTable : List IterFn := [%s]" % ", ".join('⟨"%s", %d, .%s, %d⟩' % r_ for r_ in rows))
     out.append("")
+    # --- jump-offset size guards of re.c _yr_re_emit: "return TOO_LARGE when <distance> <op> <bound>", distance >= 0
+    BOUNDS = {"INT16_MAX": 32767, "-(INT16_MIN)": 32768, "-INT16_MIN": 32768}
+    emitm = re.search(r"static\s+int\s+_yr_re_emit\s*\(.*?\n\}", rec, flags=re.S)
+    emit_body = emitm.group(0) if emitm else ""
+
+    def case_body(nm):
+        m_ = re.search(r"case\s+%s\s*:(.*?)(?=\n  case\s+RE_NODE_|\n  \}\n)" % nm, emit_body, flags=re.S)
+        return m_.group(1) if m_ else ""
+
+    def size_guards(body):
+        res = []
+        for m_ in re.finditer(r"if\s*\(\s*([\w.>\-]+?)\s*-\s*([\w.>\-]+?)\s*(==|>=|>|<=|<|!=)\s*(-\(INT16_MIN\)|-INT16_MIN|INT16_MAX|INT16_MIN)\s*\)\s*return\s+ERROR_REGULAR_EXPRESSION_TOO_LARGE", body):
+            a, b, op, k = m_.groups()
+            if k == "INT16_MIN":
+                # a - b < INT16_MIN with a <= b: the distance b - a exceeds 32768; normalised to "distance > 32768", stored offset negative
+                if op not in ("<", "<="):
+                    res.append(("neg", "unparsed", 0)); continue
+                res.append(("neg", "gt" if op == "<" else "ge", 32768))
+            else:
+                res.append(("pos", CMP[op], BOUNDS[k]))
+        return res
+
+    sg = []   # (site, backward?, cmp, bound)
+    expect = [("RE_NODE_PLUS", ["plusBack"], [True]), ("RE_NODE_STAR", ["starBack", "starFwd"], [True, False]),
+              ("RE_NODE_ALT", ["altSplit", "altJmp"], [False, False]), ("RE_NODE_RANGE", ["rangeSplit"], [False])]
+    for nm, sites, backs in expect:
+        g = size_guards(case_body(nm))
+        if len(g) != len(sites):
+            unparsed.append("re.c _yr_re_emit %s size guards (%d found, %d expected)" % (nm, len(g), len(sites)))
+            g = [("pos", "unparsed", 0)] * len(sites)
+        for site, back, (sign, cmp_, bound) in zip(sites, backs, g):
+            if cmp_ == "unparsed":
+                unparsed.append("re.c _yr_re_emit guard " + site)
+            sg.append((site, back, cmp_, bound))
+    out.append("structure SizeGuard where")
+    out.append("  site : String")
+    out.append("  backward : Bool      -- the stored int16 offset is minus the distance")
+    out.append("  cmp : Cmp")
+    out.append("  bound : Nat")
+    out.append("  deriving DecidableEq, Repr")
+    out.append("")
+    out.append("/-- re.c `_yr_re_emit`: ERROR_REGULAR_EXPRESSION_TOO_LARGE is returned when `distance <cmp> bound` (distance in bytes between the jump/split instruction and its target) -/")
+    out.append("def reSizeGuards : List SizeGuard := [%s]" % ", ".join('⟨"%s", %s, .%s, %d⟩' % (a_, "true" if b_ else "false", c_, d_) for a_, b_, c_, d_ in sg))
+    out.append("")
+    # --- scanner.c _yr_scanner_clean_matches: which count sizes the memset of strings_temp_disabled
+    cm = re.search(r"memset\s*\(\s*scanner->strings_temp_disabled\s*,\s*0\s*,\s*sizeof\(YR_BITMASK\)\s*\*\s*YR_BITMASK_SIZE\(scanner->rules->(\w+)\)\s*\)", scannerc)
+    field = cm.group(1) if cm else "unparsed"
+    if not cm:
+        unparsed.append("scanner.c _yr_scanner_clean_matches strings_temp_disabled")
+    out.append("/-- scanner.c `_yr_scanner_clean_matches`: `memset(strings_temp_disabled, 0, sizeof(YR_BITMASK) * YR_BITMASK_SIZE(rules-><field>))` -/")
+    out.append('def cleanDisabledSizedBy : String := "%s"' % field)
+    out.append("")
     out.append("def unparsedItems : List String := [%s]" % ", ".join('"%s"' % u.replace('"', "'") for u in unparsed))
     out.append("")
     out.append("end YaraModel.Gen.Limits")
@@ -514,7 +566,9 @@ def run(repo, outdir):
 def values(repo):
     """Parsed constants as a dict (used by the check to cross-check the harness build)."""
     import tempfile
-    d = tempfile.mkdtemp(dir=os.path.join(os.path.dirname(os.path.dirname(os.path.abspath(__file__))), ".build"))
+    bd = os.path.join(os.path.dirname(os.path.dirname(os.path.abspath(__file__))), ".build")
+    os.makedirs(bd, exist_ok=True)
+    d = tempfile.mkdtemp(dir=bd)
     try:
         run(repo, d)
         t = open(os.path.join(d, "Limits.lean")).read()
